@@ -180,6 +180,7 @@ class Case:
 class LoopSpec:
     invariant: Callable[[Any], Any]
     variant: Callable[[Any], Any] | None = None
+    havoc: dict | None = None  # non-integer loop variables: name -> (eng, name) -> an arbitrary value of its type
 
 
 @dataclass
@@ -249,8 +250,8 @@ class Contract:
         self.cases.append(Case("raise", tuple(exc), when, None, label))
         return self
 
-    def loop(self, func_qualname: str, ordinal: int, invariant: Callable[[Any], Any], variant: Callable[[Any], Any] | None = None) -> "Contract":
-        self.loops[(func_qualname, ordinal)] = LoopSpec(invariant, variant)
+    def loop(self, func_qualname: str, ordinal: int, invariant: Callable[[Any], Any], variant: Callable[[Any], Any] | None = None, havoc: dict | None = None) -> "Contract":
+        self.loops[(func_qualname, ordinal)] = LoopSpec(invariant, variant, havoc)
         return self
 
 
